@@ -549,7 +549,8 @@ static void op_readsome(void)
         if (ncmpi_inq_var(ncid, v, NULL, &xt, NULL, dimids, NULL)) { nerr++; continue; }
         MPI_Offset start[64], count[64]; long long total = 1; int empty = 0;
         for (int d = 0; d < nd; d++) { MPI_Offset len = 0; if (ncmpi_inq_dimlen(ncid, dimids[d], &len)) { empty = 1; break; }
-            start[d] = 0; count[d] = len; if (len <= 0) empty = 1; if (total <= (1LL << 40)) total *= (len > 0 ? len : 1); }
+            start[d] = 0; count[d] = len; if (len <= 0) empty = 1;
+            if (len > (1LL << 20) || total > (1LL << 40)) total = (1LL << 41); else total *= (len > 0 ? len : 1); }
         if (empty) continue;
         unsigned char *raw = galloc(16, 0x5A);
         int e = ncmpi_get_var1(ncid, v, start, raw + GUARD, 0, MPI_DATATYPE_NULL);
@@ -557,7 +558,7 @@ static void op_readsome(void)
         if (!gcheck(raw, 16)) { logf_("S %d readsome guard=0 v=%d\n", g_line, v); }
         free(raw);
         size_t xs = xtsize(xt);
-        if (total > 0 && total * (long long)xs <= maxbytes) {
+        if (total > 0 && total <= (1LL << 40) && total * (long long)xs <= maxbytes) {
             raw = galloc((size_t)total * xs, 0x5A);
             e = ncmpi_get_vara_all(ncid, v, start, count, raw + GUARD, 0, MPI_DATATYPE_NULL);
             if (e) { nerr++; if (!firsterr) firsterr = e; } else nread++;
